@@ -1,6 +1,7 @@
 import OVM.IO.Ovmb.FramingLemmas
 import OVM.IO.Ovmb.RoundTripExample
 import OVM.IO.Ovmb.RoundTripPermitted
+import OVM.IO.Ovmb.RejectFile
 /-
   C18 — OVMB detects truncation, framing corruption and stream failures.
 
@@ -19,6 +20,23 @@ import OVM.IO.Ovmb.RoundTripPermitted
   the last chunk is an EOF chunk — whatever the header and the payloads contain (so also every alternative
   layout: `permitted_prefix_rejected`).  Lemmas: OVM/IO/Ovmb/RoundTripFrame.lean (`readChunk_full`, `readChunk_partial`, `processChunk_ep`,
   `loop_truncated`, `decodeStream_truncated`), RoundTripTrunc.lean.
+
+  **Inconsistent files (second clause)**: `inconsistent_*_rejected` (summary: `inconsistent_file_rejected`) — for
+  every byte string / stream state, every reader configuration and every reader state the chunk loop may be in:
+  wrong magic, header version, vertex dimension, topology type, reserved bytes, counts above max_handle_idx, a
+  topology type the target mesh cannot hold; per chunk: invalid flags, padding > length, length > remaining bytes,
+  non-zero padding, unknown mandatory type, unsupported version of a mandatory chunk, a second EOF chunk or one
+  with payload, a second directory; VERT: encoding, reserved, span, size; TOPO: entity, encodings (incl. handle
+  encoding None and the valence / valence-encoding combination), count 0, span, valence vs. entity kind and
+  topology type, number of handle bytes, handles (+ offset mod 2^64) not below the entities read so far, empty
+  lists; PROP: index, range, size; end: missing EOF chunk, counts read ≠ declared, trailing fragment.
+  `chunk_rejected_lifts` / `rejected_after_any_prefix` carry a rejected chunk through any well-framed prefix to the
+  file.  `chunk_after_eof_is_read` states what the reader does after the EOF chunk: it keeps reading chunks; a
+  skippable chunk there is accepted and ignored (the format relation `ValidLayout` puts EOF last; the reader is
+  more lenient).  Not covered: PROP size for string-valued properties (variable element size), payloads shorter
+  than their sub-header (rejected by the `need` checks; not stated separately), DIRP entry contents.
+  Lemmas: OVM/IO/Ovmb/Reject{Header,Frame,Chunks,Topo,File}.lean (inversion lemmas `decodeStream_ok_inv`,
+  `applyTopo_ok_inv`, `topoBody_*_inv`, `readFaceLists_inv`: what a successful read implies).
 -/
 namespace OVM.Props.C18
 open OVM.Ovmb OVM.Gen.Ovmb
@@ -80,6 +98,305 @@ example : ∀ p < 631, ∀ F', decode Example.tetCfg ((encodeWith Example.altLay
     (by rw [Example.altLayout_length]; exact hp) F').1
 example : decode Example.tetCfg (encode Example.tetFile) = .ok Example.tetFile :=
   decode_encode _ _ Example.tetFile_wf Example.tetFile_accepts Example.tetFile_size
+
+/-! ## second clause: inconsistent files are rejected
+
+  Every theorem below says: if <field> has an inadmissible value then the result is not Ok (`Rejected r := ∀ a,
+  r ≠ .ok a`) — for every byte string, every reader configuration and (for chunks) every reader state `s` the
+  chunk loop may be in.  Chunk bodies are given by their raw sub-header fields (any values that fit the field
+  widths: every byte string of that length is one) followed by arbitrary bytes.  `chunk_rejected_lifts` and
+  `rejected_after_any_prefix` carry a rejected chunk to the chunk loop and to the whole file. -/
+
+/-- wrong magic (any of the 8 bytes), for a complete or a failing stream -/
+theorem inconsistent_magic_rejected (cfg : Cfg) (rem : Nat) (data : Bytes) (h : data.take 8 ≠ magicBytes) :
+    Rejected (decodeStream cfg ⟨rem, data⟩) := header_rejected cfg rem data (Or.inl h)
+
+/-- header version other than 1 -/
+theorem inconsistent_header_version_rejected (cfg : Cfg) (rem : Nat) (data : Bytes) (h : hdrVersion data ≠ 1) :
+    Rejected (decodeStream cfg ⟨rem, data⟩) := header_rejected cfg rem data (Or.inr (Or.inl h))
+
+/-- vertex dimension other than 3 -/
+theorem inconsistent_vertex_dim_rejected (cfg : Cfg) (rem : Nat) (data : Bytes) (h : hdrVertexDim data ≠ 3) :
+    Rejected (decodeStream cfg ⟨rem, data⟩) := header_rejected cfg rem data (Or.inr (Or.inr (Or.inl h)))
+
+/-- invalid topology type -/
+theorem inconsistent_topo_type_rejected (cfg : Cfg) (rem : Nat) (data : Bytes) (h : hdrTopo data ∉ validTopoType) :
+    Rejected (decodeStream cfg ⟨rem, data⟩) := header_rejected cfg rem data (Or.inr (Or.inr (Or.inr (Or.inl h))))
+
+/-- non-zero reserved bytes in the file header -/
+theorem inconsistent_header_reserved_rejected (cfg : Cfg) (rem : Nat) (data : Bytes)
+    (h : allZero (hdrReserved data) = false) : Rejected (decodeStream cfg ⟨rem, data⟩) :=
+  header_rejected cfg rem data (Or.inr (Or.inr (Or.inr (Or.inr (Or.inl h)))))
+
+/-- a vertex / edge / face / cell count above max_handle_idx -/
+theorem inconsistent_header_count_rejected (cfg : Cfg) (rem : Nat) (data : Bytes) (i : Nat) (hi : i < 4)
+    (h : maxHandleIdx < hdrCount data i) : Rejected (decodeStream cfg ⟨rem, data⟩) :=
+  header_rejected cfg rem data (Or.inr (Or.inr (Or.inr (Or.inr (Or.inr (Or.inl ⟨i, hi, h⟩))))))
+
+/-- topology type incompatible with the target mesh kind -/
+theorem inconsistent_mesh_kind_rejected (cfg : Cfg) (rem : Nat) (data : Bytes)
+    (h : (cfg.kind = .tet ∧ hdrTopo data ≠ topoTypeTetrahedral) ∨ (cfg.kind = .hex ∧ hdrTopo data ≠ topoTypeHexahedral)) :
+    Rejected (decodeStream cfg ⟨rem, data⟩) :=
+  header_rejected cfg rem data (Or.inr (Or.inr (Or.inr (Or.inr (Or.inr (Or.inr h))))))
+
+/-- `decode` and `decodeFaulty` are `decodeStream` on a complete resp. failing stream, so the seven theorems above
+    speak about both -/
+theorem decode_is_decodeStream (cfg : Cfg) (bytes : Bytes) (p : Nat) :
+    decode cfg bytes = decodeStream cfg ⟨bytes.length, bytes⟩ ∧
+    decodeFaulty cfg bytes p = decodeStream cfg ⟨bytes.length, bytes.take p⟩ := ⟨rfl, rfl⟩
+
+/-- invalid chunk flags, or more padding than the chunk's total length: the next chunk header is `h` (any six
+    in-width field values), from every reader state -/
+theorem inconsistent_chunk_header_rejected (cfg : Cfg) (s : RState) (h : RawHdr) (hw : h.InWidth) (rem : Nat)
+    (rest : Bytes) (h0 : rem ≠ 0) (hbad : h.flags ∉ validChunkFlags ∨ h.fileLength < h.pad) :
+    Rejected (loop cfg s ⟨rem, h.bytes ++ rest⟩) := loop_chunk_header_rejected cfg s h hw rem rest h0 hbad
+
+/-- chunk length larger than the remaining bytes -/
+theorem inconsistent_chunk_length_rejected (cfg : Cfg) (s : RState) (h : RawHdr) (hw : h.InWidth) (rem : Nat)
+    (rest : Bytes) (h0 : rem ≠ 0) (hbad : rem - sizeChunkHeader < h.fileLength) :
+    Rejected (loop cfg s ⟨rem, h.bytes ++ rest⟩) := loop_chunk_too_big_rejected cfg s h hw rem rest h0 hbad
+
+/-- non-zero padding bytes -/
+theorem inconsistent_chunk_padding_rejected (cfg : Cfg) (s : RState) (h : RawHdr) (hw : h.InWidth) (rem : Nat)
+    (payload pb rest : Bytes) (h0 : rem ≠ 0) (hpl : payload.length = h.fileLength - h.pad) (hpb : pb.length = h.pad)
+    (hbad : allZero pb = false) : Rejected (loop cfg s ⟨rem, h.bytes ++ (payload ++ (pb ++ rest))⟩) :=
+  loop_chunk_padding_rejected cfg s h hw rem payload pb rest h0 hpl hpb hbad
+
+/-- every 16 bytes are a chunk header with in-width fields, so the three theorems above speak about every stream -/
+theorem every_chunk_header_is_raw (hb : Bytes) (hl : hb.length = sizeChunkHeader) :
+    ∃ h : RawHdr, h.InWidth ∧ h.bytes = hb := rawHdr_of_bytes hb hl
+
+/-- a mandatory chunk of unknown type -/
+theorem inconsistent_chunk_type_rejected (cfg : Cfg) (s : RState) (h : ChunkHdr) (p : Bytes) (hm : h.mandatory = true)
+    (hty : h.ty ≠ ccEOF ∧ h.ty ≠ ccDIRP ∧ h.ty ≠ ccPROP ∧ h.ty ≠ ccVERT ∧ h.ty ≠ ccTOPO) :
+    processChunk cfg s h p = invalid := processChunk_unknown_rejected cfg s h p hm hty
+
+/-- a mandatory chunk of an unsupported version -/
+theorem inconsistent_chunk_version_rejected (cfg : Cfg) (s : RState) (h : ChunkHdr) (p : Bytes)
+    (hv : h.version ≠ 0) (hm : h.mandatory = true) : processChunk cfg s h p = invalid :=
+  processChunk_version_rejected cfg s h p hv hm
+
+/-- a second EOF chunk, or an EOF chunk with a payload -/
+theorem inconsistent_eof_chunk_rejected (cfg : Cfg) (s : RState) (h : ChunkHdr) (p : Bytes) (hv : h.version = 0)
+    (hty : h.ty = ccEOF) (hbad : s.eof = true ∨ p ≠ []) : processChunk cfg s h p = invalid := by
+  rcases hbad with he | hp
+  · exact processChunk_second_eof_rejected cfg s h p hv hty he
+  · exact processChunk_eof_payload_rejected cfg s h p hv hty hp
+
+/-- a second property directory -/
+theorem inconsistent_second_dirp_rejected (cfg : Cfg) (s : RState) (h : ChunkHdr) (p : Bytes) (hv : h.version = 0)
+    (hty : h.ty = ccDIRP) (hd : s.dir ≠ []) : processChunk cfg s h p = invalid :=
+  processChunk_second_dirp_rejected cfg s h p hv hty hd
+
+/-- VERT: invalid vertex encoding, non-zero reserved bytes, span not starting at the number of vertices read so
+    far or overrunning the declared count, payload size ≠ count × element size -/
+theorem inconsistent_vert_chunk_rejected (s : RState) (first count enc : Nat) (res body : Bytes) (hf : first < 2 ^ 64)
+    (hc : count < 2 ^ 32) (he : enc < 256) (hr : res.length = 3)
+    (hbad : enc ∉ validVertexEncoding ∨ allZero res = false ∨ first ≠ s.nVr ∨ count > s.nV - s.nVr ∨
+      body.length ≠ count * (elemSizeVertex enc * meshDim)) :
+    applyVert s (rawVert first count enc res body) = invalid := applyVert_tests s first count enc res body hf hc he hr hbad
+
+/-- TOPO sub-header: invalid entity, invalid valence / handle encoding, handle encoding None, count = 0, fixed
+    valence with a valence encoding, variable valence without one -/
+theorem inconsistent_topo_header_rejected (cfg : Cfg) (s : RState) {first count entity valence valEnc hEnc off : Nat}
+    (hw : TopoRaw first count entity valence valEnc hEnc off) (p1 : Bytes)
+    (hbad : entity ∉ validTopoEntity ∨ valEnc ∉ validIntEncoding ∨ hEnc ∉ validIntEncoding ∨ count = 0 ∨
+      hEnc = intEncodingNone ∨ (valence ≠ 0 ∧ valEnc ≠ intEncodingNone) ∨ (valence = 0 ∧ valEnc = intEncodingNone)) :
+    applyTopo cfg s (encTopoHeader first count entity valence valEnc hEnc off ++ p1) = invalid :=
+  applyTopo_header_rejected cfg s hw p1 hbad
+
+/-- TOPO: span not contiguous (`first ≠` entities read so far) or overrunning the declared count; edge valence ≠ 2;
+    face / cell valence inconsistent with a tetrahedral / hexahedral topology type — whatever follows -/
+theorem inconsistent_topo_span_rejected (cfg : Cfg) (s : RState) {first count entity valence valEnc hEnc off : Nat}
+    (hw : TopoRaw first count entity valence valEnc hEnc off) (p1 : Bytes)
+    (hbad :
+      (entity = topoEntityEdge ∧ (first ≠ s.edges.length ∨ s.nE - s.edges.length < count ∨ valence ≠ 2)) ∨
+      (entity = topoEntityFace ∧ (first ≠ s.faces.length ∨ s.nF - s.faces.length < count ∨
+        (s.topo = topoTypeTetrahedral ∧ valence ≠ 3) ∨ (s.topo = topoTypeHexahedral ∧ valence ≠ 4))) ∨
+      (entity = topoEntityCell ∧ (first ≠ s.cells.length ∨ s.nC - s.cells.length < count ∨
+        (s.topo = topoTypeTetrahedral ∧ valence ≠ 4) ∨ (s.topo = topoTypeHexahedral ∧ valence ≠ 6)))) :
+    Rejected (applyTopo cfg s (encTopoHeader first count entity valence valEnc hEnc off ++ p1)) :=
+  applyTopo_span_rejected cfg s hw p1 hbad
+
+/-- TOPO: number of handles ≠ what the valences announce (payload size); a handle that, after adding the offset
+    mod 2^64, is not below the number of vertices / halfedges / halffaces read so far; an empty face or cell -/
+theorem inconsistent_topo_handles_rejected (cfg : Cfg) (s : RState) {first count entity valence valEnc hEnc off : Nat}
+    (hw : TopoRaw first count entity valence valEnc hEnc off) {vals xs : List Nat}
+    (ht : TailOk count valence valEnc hEnc vals xs)
+    (hbad : xs.length ≠ (if valence = 0 then vals.sum else valence * count) ∨
+      (entity = topoEntityEdge ∧ ∃ x ∈ xs, s.nVr ≤ w64 (x + off)) ∨
+      (entity = topoEntityFace ∧ ∃ x ∈ xs, 2 * s.edges.length ≤ w64 (x + off)) ∨
+      (entity = topoEntityCell ∧ ∃ x ∈ xs, 2 * s.faces.length ≤ w64 (x + off)) ∨
+      (entity ≠ topoEntityEdge ∧ valence = 0 ∧ 0 ∈ vals)) :
+    Rejected (applyTopo cfg s (encTopoHeader first count entity valence valEnc hEnc off ++ topoTail valence valEnc hEnc vals xs)) :=
+  applyTopo_tail_rejected cfg s hw ht hbad
+
+/-- PROP: property index outside the directory -/
+theorem inconsistent_prop_index_rejected (s : RState) (first count idx : Nat) (body : Bytes) (hf : first < 2 ^ 64)
+    (hc : count < 2 ^ 32) (hi : idx < 2 ^ 32) (hbad : s.dir.length ≤ idx) :
+    applyProp s (rawProp first count idx body) = invalid := applyProp_index_rejected s first count idx body hf hc hi hbad
+
+/-- PROP: span of values outside the entities read so far / outside the property -/
+theorem inconsistent_prop_range_rejected (s : RState) (first count idx i : Nat) (st : Storage) (body : Bytes)
+    (hf : first < 2 ^ 64) (hc : count < 2 ^ 32) (hi : idx < 2 ^ 32) (hdir : s.dir[idx]? = some (some i))
+    (hst : s.stor[i]? = some st) (hc0 : count ≠ 0)
+    (hbad : s.readCount st.entity < first + count ∨ st.vals.length < first + count) :
+    applyProp s (rawProp first count idx body) = invalid :=
+  applyProp_range_rejected s first count idx i st body hf hc hi hdir hst hc0 hbad
+
+/-- PROP: payload size inconsistent with the count (fixed-size and bit-packed bool value types; any type for an
+    empty span) -/
+theorem inconsistent_prop_size_rejected (s : RState) (first count idx i : Nat) (st : Storage) (body : Bytes)
+    (hf : first < 2 ^ 64) (hc : count < 2 ^ 32) (hi : idx < 2 ^ 32) (hdir : s.dir[idx]? = some (some i))
+    (hst : s.stor[i]? = some st)
+    (hbad : (count = 0 ∧ body ≠ []) ∨ (st.codec.kind = .fixed ∧ body.length ≠ count * st.codec.size) ∨
+      (st.codec.kind = .bool ∧ body.length ≠ (count + 7) / 8)) :
+    Rejected (applyProp s (rawProp first count idx body)) :=
+  applyProp_size_rejected s first count idx i st body hf hc hi hdir hst hbad
+
+/-- end of the file: no EOF chunk seen, or fewer / more edges, faces or cells read than the header declares -/
+theorem inconsistent_end_rejected (cfg : Cfg) (s : RState) (data : Bytes)
+    (hbad : s.eof = false ∨ s.nE ≠ s.edges.length ∨ s.nF ≠ s.faces.length ∨ s.nC ≠ s.cells.length) :
+    Rejected (loop cfg s ⟨0, data⟩) := loop_end_rejected cfg s data hbad
+
+/-- a file of a header and well-framed chunks without an EOF chunk is rejected, whatever the chunks contain -/
+theorem missing_eof_chunk_rejected (cfg : Cfg) (hdr : Bytes) (hh : hdr.length = sizeFileHeader) (cs : List ChunkD)
+    (hfit : ∀ c ∈ cs, c.Fits) (hne : ∀ c ∈ cs, c.notEof) :
+    Rejected (decode cfg (hdr ++ (cs.map ChunkD.bytes).flatten)) := decode_no_eof_rejected cfg hdr hh cs hfit hne
+
+/-- a trailing fragment shorter than a chunk header (for instance after the EOF chunk) -/
+theorem trailing_fragment_rejected (cfg : Cfg) (s : RState) (rem : Nat) (data : Bytes) (h0 : rem ≠ 0)
+    (hbad : rem < sizeChunkHeader ∨ data.length < sizeChunkHeader) : Rejected (loop cfg s ⟨rem, data⟩) :=
+  loop_trailing_fragment_rejected cfg s rem data h0 hbad
+
+/-- what the reader does with chunks *after* the EOF chunk: it keeps reading them like any other chunk (a second
+    EOF chunk and a trailing fragment are rejected, see above); a well-framed skippable chunk after the writer's
+    complete file is accepted and ignored -/
+theorem chunk_after_eof_is_read (cfg : Cfg) (F : File) (hwf : WFFile F = true) (hacc : Accepts cfg F)
+    (c : ChunkD) (hc : c.Fits) (hs : (encode F ++ c.bytes).length < 2 ^ 64)
+    (hskip : c.flags = 0 ∧ (c.version ≠ 0 ∨ (c.ty ≠ ccEOF ∧ c.ty ≠ ccDIRP ∧ c.ty ≠ ccPROP ∧ c.ty ≠ ccVERT ∧ c.ty ≠ ccTOPO))) :
+    decode cfg (encode F ++ c.bytes) = .ok F := decode_chunk_after_eof_accepted cfg F hwf hacc c hc hs hskip
+
+/-- **lifting, chunk → loop**: a well-framed chunk whose body the reader rejects in state `s` makes the chunk loop
+    fail from `s` -/
+theorem chunk_rejected_lifts (cfg : Cfg) (s : RState) (c : ChunkD) (hc : c.Fits) (rem : Nat) (rest : Bytes)
+    (hrem : c.bytes.length ≤ rem) (hrej : Rejected (processChunk cfg s c.hdr c.payload)) :
+    Rejected (loop cfg s ⟨rem, c.bytes ++ rest⟩) := loop_next_chunk_rejected cfg s c hc rem rest hrem hrej
+
+/-- **lifting, loop → file**: whatever header and whatever well-framed chunks precede it, a tail the chunk loop
+    rejects from every state makes the file rejected; and a file read Ok has brought the loop through the chunks
+    `cs` into a state from which the tail reads Ok -/
+theorem rejected_after_any_prefix (cfg : Cfg) (hdr : Bytes) (hh : hdr.length = sizeFileHeader) (cs : List ChunkD)
+    (hfit : ∀ c ∈ cs, c.Fits) (rest : Bytes) :
+    ((∀ s, Rejected (loop cfg s ⟨rest.length, rest⟩)) →
+      Rejected (decode cfg (hdr ++ ((cs.map ChunkD.bytes).flatten ++ rest)))) ∧
+    (∀ F, decode cfg (hdr ++ ((cs.map ChunkD.bytes).flatten ++ rest)) = .ok F →
+      ∃ topo nV nE nF nC s, runChunks cfg (initState topo nV nE nF nC) cs = .ok s ∧
+        loop cfg s ⟨rest.length, rest⟩ = .ok F) :=
+  ⟨decode_rejected_of_loop cfg hdr hh cs hfit rest, fun _ hok => decode_prefix_inv hh hfit hok⟩
+
+/-- **summary**: the second clause of C18 as one statement — the conjunction of the rejection theorems above -/
+theorem inconsistent_file_rejected :
+    (type_of% @inconsistent_magic_rejected) ∧ (type_of% @inconsistent_header_version_rejected) ∧
+    (type_of% @inconsistent_vertex_dim_rejected) ∧ (type_of% @inconsistent_topo_type_rejected) ∧
+    (type_of% @inconsistent_header_reserved_rejected) ∧ (type_of% @inconsistent_header_count_rejected) ∧
+    (type_of% @inconsistent_mesh_kind_rejected) ∧ (type_of% @inconsistent_chunk_header_rejected) ∧
+    (type_of% @inconsistent_chunk_length_rejected) ∧ (type_of% @inconsistent_chunk_padding_rejected) ∧
+    (type_of% @inconsistent_chunk_type_rejected) ∧ (type_of% @inconsistent_chunk_version_rejected) ∧
+    (type_of% @inconsistent_eof_chunk_rejected) ∧ (type_of% @inconsistent_second_dirp_rejected) ∧
+    (type_of% @inconsistent_vert_chunk_rejected) ∧ (type_of% @inconsistent_topo_header_rejected) ∧
+    (type_of% @inconsistent_topo_span_rejected) ∧ (type_of% @inconsistent_topo_handles_rejected) ∧
+    (type_of% @inconsistent_prop_index_rejected) ∧ (type_of% @inconsistent_prop_range_rejected) ∧
+    (type_of% @inconsistent_prop_size_rejected) ∧ (type_of% @inconsistent_end_rejected) ∧
+    (type_of% @missing_eof_chunk_rejected) ∧ (type_of% @trailing_fragment_rejected) ∧
+    (type_of% @chunk_rejected_lifts) ∧ (type_of% @rejected_after_any_prefix) :=
+  ⟨@inconsistent_magic_rejected, @inconsistent_header_version_rejected, @inconsistent_vertex_dim_rejected,
+   @inconsistent_topo_type_rejected, @inconsistent_header_reserved_rejected, @inconsistent_header_count_rejected,
+   @inconsistent_mesh_kind_rejected, @inconsistent_chunk_header_rejected, @inconsistent_chunk_length_rejected,
+   @inconsistent_chunk_padding_rejected, @inconsistent_chunk_type_rejected, @inconsistent_chunk_version_rejected,
+   @inconsistent_eof_chunk_rejected, @inconsistent_second_dirp_rejected, @inconsistent_vert_chunk_rejected,
+   @inconsistent_topo_header_rejected, @inconsistent_topo_span_rejected, @inconsistent_topo_handles_rejected,
+   @inconsistent_prop_index_rejected, @inconsistent_prop_range_rejected, @inconsistent_prop_size_rejected,
+   @inconsistent_end_rejected, @missing_eof_chunk_rejected, @trailing_fragment_rejected, @chunk_rejected_lifts,
+   @rejected_after_any_prefix⟩
+
+/-! non-vacuity of the second clause (evaluations on one input, tests): the one-tetrahedron file with one byte
+    substituted, and chunks of it with one field changed -/
+/-- the tetrahedron file with byte `i` replaced by `b` -/
+def sub (i : Nat) (b : UInt8) : Bytes := (encode Example.tetFile).set i b
+
+set_option maxRecDepth 20000 in
+example (cfg : Cfg) : Rejected (decode cfg (sub 3 0)) := inconsistent_magic_rejected cfg _ _ (by decide)
+set_option maxRecDepth 20000 in
+example (cfg : Cfg) : Rejected (decode cfg (sub 9 2)) := inconsistent_header_version_rejected cfg _ _ (by decide)
+set_option maxRecDepth 20000 in
+example (cfg : Cfg) : Rejected (decode cfg (sub 10 2)) := inconsistent_vertex_dim_rejected cfg _ _ (by decide)
+set_option maxRecDepth 20000 in
+example (cfg : Cfg) : Rejected (decode cfg (sub 11 3)) := inconsistent_topo_type_rejected cfg _ _ (by decide)
+set_option maxRecDepth 20000 in
+example (cfg : Cfg) : Rejected (decode cfg (sub 14 1)) := inconsistent_header_reserved_rejected cfg _ _ (by decide)
+set_option maxRecDepth 20000 in
+example (cfg : Cfg) : Rejected (decode cfg (sub 23 255)) := inconsistent_header_count_rejected cfg _ _ 0 (by decide) (by decide)
+set_option maxRecDepth 20000 in
+example : Rejected (decode Example.tetCfg (sub 11 0)) :=
+  inconsistent_mesh_kind_rejected Example.tetCfg _ _ (Or.inl ⟨rfl, by decide⟩)
+
+/-- the VERT chunk of the tetrahedron file with its encoding byte (file offset 116) replaced by 3 -/
+def badVert : ChunkD := wc ccVERT (rawVert 0 4 3 (zeros 3) (encPositions Example.tetFile.pos))
+
+/- evaluation on one input (a test): the substituted file, split at its chunks -/
+set_option maxRecDepth 100000 in
+theorem sub116 : sub 116 3 = writerHeader Example.tetFile ++
+    ((([wc ccDIRP (dirpPayload Example.tetFile.props)] : List ChunkD).map ChunkD.bytes).flatten ++
+      (badVert.bytes ++ (((writerChunkDs Example.tetFile).drop 2).map ChunkD.bytes).flatten)) := by decide
+
+/- the substituted file is rejected by every reader configuration: the chunk reader rejects the encoding in every
+    state (`inconsistent_vert_chunk_rejected`), hence the loop (`chunk_rejected_lifts`), hence the file
+    (`rejected_after_any_prefix`) -/
+set_option maxRecDepth 20000 in
+example (cfg : Cfg) : Rejected (decode cfg (sub 116 3)) := by
+  rw [sub116]
+  have hfit : ∀ c ∈ ([wc ccDIRP (dirpPayload Example.tetFile.props)] : List ChunkD), c.Fits := by
+    intro c hc
+    simp only [List.mem_singleton] at hc
+    rw [hc]; exact wc_fits _ _ (by decide) (by decide)
+  have hc : badVert.Fits := wc_fits _ _ (by decide) (by decide)
+  refine (rejected_after_any_prefix cfg _ (encFileHeader_length ..) _ hfit _).1 (fun s => ?_)
+  refine chunk_rejected_lifts cfg s badVert hc _ _ (by simp) ?_
+  rw [dispatch_vert cfg s _ _ rfl rfl]
+  exact Rejected.of_invalid (inconsistent_vert_chunk_rejected s 0 4 3 (zeros 3) _ (by decide) (by decide) (by decide)
+    (by decide) (Or.inl (by decide)))
+
+/-- the reader state after the header, directory, vertices and edges of the tetrahedron file -/
+def sEdges : RState := mkS Example.tetFile true true Example.tetFile.edges [] [] 0 false
+
+/- the face chunk of the tetrahedron file with its last handle 11 replaced by 12 (only 12 halfedges exist) -/
+example (cfg : Cfg) : Rejected (applyTopo cfg sEdges (encTopoHeader 0 4 topoEntityFace 3 intEncodingNone intEncodingU8 0 ++
+    topoTail 3 intEncodingNone intEncodingU8 [] [0, 2, 4, 0, 8, 7, 2, 10, 9, 4, 6, 12])) :=
+  inconsistent_topo_handles_rejected cfg sEdges ⟨by decide, by decide, by decide, by decide, by decide, by decide, by decide⟩
+    ⟨fun h => absurd h (by decide), by decide⟩ (Or.inr (Or.inr (Or.inl ⟨rfl, 12, by simp, by decide⟩)))
+
+/- the same chunk announcing its span to start at face 1, or one handle short, or with valence 4 in a tetrahedral file -/
+example (cfg : Cfg) (p1 : Bytes) : Rejected (applyTopo cfg sEdges
+    (encTopoHeader 1 4 topoEntityFace 3 intEncodingNone intEncodingU8 0 ++ p1)) :=
+  inconsistent_topo_span_rejected cfg sEdges ⟨by decide, by decide, by decide, by decide, by decide, by decide, by decide⟩ p1
+    (Or.inr (Or.inl ⟨rfl, Or.inl (by decide)⟩))
+example (cfg : Cfg) : Rejected (applyTopo cfg sEdges (encTopoHeader 0 4 topoEntityFace 3 intEncodingNone intEncodingU8 0 ++
+    topoTail 3 intEncodingNone intEncodingU8 [] [0, 2, 4, 0, 8, 7, 2, 10, 9, 4, 6])) :=
+  inconsistent_topo_handles_rejected cfg sEdges ⟨by decide, by decide, by decide, by decide, by decide, by decide, by decide⟩
+    ⟨fun h => absurd h (by decide), by decide⟩ (Or.inl (by decide))
+example (cfg : Cfg) (p1 : Bytes) : Rejected (applyTopo cfg sEdges
+    (encTopoHeader 0 4 topoEntityFace 4 intEncodingNone intEncodingU8 0 ++ p1)) :=
+  inconsistent_topo_span_rejected cfg sEdges ⟨by decide, by decide, by decide, by decide, by decide, by decide, by decide⟩ p1
+    (Or.inr (Or.inl ⟨rfl, Or.inr (Or.inr (Or.inl ⟨rfl, by decide⟩))⟩))
+
+/- a chunk header with flags byte 2, a PROP chunk for property 5 of a one-entry directory, a file end without EOF -/
+example (cfg : Cfg) (s : RState) (rest : Bytes) : Rejected (loop cfg s ⟨64, (⟨ccVERT, 0, 0, 0, 2, 16⟩ : RawHdr).bytes ++ rest⟩) :=
+  inconsistent_chunk_header_rejected cfg s _ ⟨by decide, by decide, by decide, by decide, by decide, by decide⟩ 64 rest
+    (by decide) (Or.inl (by decide))
+example (body : Bytes) : applyProp sEdges (rawProp 0 4 5 body) = invalid :=
+  inconsistent_prop_index_rejected sEdges 0 4 5 body (by decide) (by decide) (by decide) (by decide)
+example (cfg : Cfg) : Rejected (loop cfg sEdges ⟨0, []⟩) := inconsistent_end_rejected cfg sEdges [] (Or.inl rfl)
 
 /-- write side: `Ok` only when the mesh needs no garbage collection and the stream took every byte of the
     file, in order -/
